@@ -210,6 +210,22 @@ def k5_queries(num, tier, only=None):
     return qs
 
 
+COUNTED_K = {'quick': {'lru': 3, 'mru': 3, 'fifo': 3, 'rr': 3, 'tlru': 2, 'utlru': 2, 'lfu': 2, 'lfuda': 1, 'utmap': 2},
+             'thorough': {'lru': 5, 'mru': 5, 'fifo': 5, 'rr': 5, 'tlru': 3, 'utlru': 3, 'lfu': 3, 'lfuda': 2, 'utmap': 3}}
+
+
+def counted_queries(num, tier, only=None):
+    if num != 8:
+        return []
+    qs = []
+    for cont, k in COUNTED_K[tier].items():
+        if only and cont not in only:
+            continue
+        for p in (8, 99):
+            qs.append(plan.counted_query(cont, 2, k, p, timeout=TIERS[tier]['k1_timeout']))
+    return qs
+
+
 def witness_ok(ev, q):
     r = q.result
     if r.status != 'fail':
@@ -289,9 +305,9 @@ def lift_and_replay(ev, num, q):
         lines = core.state_lines(vals, 2 if m['kind'] == 'k2x2' else 1)
     variant = 'san' if num == 8 else 'plain'
     ratio = q.defines.get('T_RATIO4')
-    extra = ['-DT_RATIO4=%s' % ratio] if ratio is not None else []
-    hdr = '# cont=%s n=%d ts=%s prop=%d variant=%s%s' % (m['cont'], m['n'], m['ts'], num, variant,
-                                                          (' ratio4=%s' % ratio) if ratio is not None else '')
+    counted = ' counted=1' if q.defines.get('VAL_COUNTED') else ''
+    hdr = '# cont=%s n=%d ts=%s prop=%d variant=%s%s%s' % (m['cont'], m['n'], m['ts'], num, variant,
+                                                            (' ratio4=%s' % ratio) if ratio is not None else '', counted)
     body = '\n'.join(lines) + '\n'
     h = hashlib.sha256((hdr + body).encode()).hexdigest()[:12]
     os.makedirs(os.path.join(ROOT, 'replays'), exist_ok=True)
@@ -320,11 +336,11 @@ def spread_replay(ev, num, n):
 
 def replay_history(path):
     txt = open(path).read()
-    m = re.search(r'#\s*cont=(\w+) n=(\d+) ts=(\w+) prop=(\d+) variant=(\w+)(?: ratio4=(\d+))?', txt)
+    m = re.search(r'#\s*cont=(\w+) n=(\d+) ts=(\w+) prop=(\d+) variant=(\w+)(?: ratio4=(\d+))?( counted=1)?', txt)
     if not m:
         raise core.ToolError('bad replay file ' + path)
     cont, n, ts, prop, variant, ratio = m.group(1), int(m.group(2)), m.group(3), int(m.group(4)), m.group(5), m.group(6)
-    exe = core.build_replay(cont, n, ts, variant, ['-DT_RATIO4=%s' % ratio] if ratio else [])
+    exe = core.build_replay(cont, n, ts, variant, (['-DT_RATIO4=%s' % ratio] if ratio else []) + (['-DVAL_COUNTED=1'] if m.group(7) else []))
     tmp = path + '.in'
     open(tmp, 'w').write('\n'.join(l for l in txt.splitlines() if not l.startswith('#')) + '\n')
     res = core.run_replay(exe, prop, tmp)
@@ -498,7 +514,7 @@ def run_property(num, tier, seed, only=None):
                             'allocation failure; clocks beyond 2^40 ticks or decreasing; lfuda ratios other than 1/2'}
     pid = ev.pid
     known, _fixed = load_known()
-    qs = k2_queries(num, tier, only) + k1_queries(num, tier, only) + k5_queries(num, tier, only)
+    qs = k2_queries(num, tier, only) + k1_queries(num, tier, only) + k5_queries(num, tier, only) + counted_queries(num, tier, only)
     sys.stderr.write('%s %s: %d queries\n' % (pid, tier, len(qs)))
     validate_translation(ev, sorted({q.meta['cont'] for q in qs}), seed, tier)
     core.run_all(qs)
@@ -527,10 +543,23 @@ def validate_translation(ev, conts, seed, tier):
 def finish(ev, num, tier, qs, known, extra_violations=()):
     cfg = TIERS[tier]
     pid = ev.pid
+    violations_pre = []
     k2_fail = interpret(ev, num, qs, 'k2')
     k1_fail = interpret(ev, num, qs, 'k1')
     k5_fail = interpret(ev, num, qs, 'k5')
-    violations = list(extra_violations)  # (path, text)
+    cnt_fail = interpret(ev, num, qs, 'cnt')
+    for q, bad in cnt_fail:
+        q.meta['kind'] = 'k1'
+        q.defines['VAL_COUNTED'] = 1
+        ok, path, info = lift_and_replay(ev, num, q)
+        q.meta['kind'] = 'cnt'
+        if ok:
+            violations_pre.append((path, '%s: with an instance-counting value type the history leaves instances alive / touches dead instances on the real build' % q.name))
+        else:
+            msg = '%s: instance accounting fails (%s) in the encoding but not on the real build' % (q.name, bad[:4])
+            ev.inconclusive.append(msg)
+            print('INCONCLUSIVE property=%s %s' % (pid, msg))
+    violations = list(extra_violations) + violations_pre  # (path, text)
     reproduced_conts = set()
     # ---- relational (two-copy) counterexamples: rebuild the state on the real build, run both copies there
     for q, bad in k5_fail:
